@@ -228,6 +228,12 @@ def run_history_shard(res: Result, shard, tier):
     if any(m.startswith("vector._compute.planar.") for m in sys.modules):
         raise RuntimeError("harness: compute modules already imported in the exploring process (state is not fresh)")
     config = shard["config"]
+    # reference under the default configuration (before this process is configured): what a call returns or raises must not depend
+    # on the caller's prior numpy.seterr / warnings / print settings (reprs excepted: they follow the print options by design)
+    refs_default = []
+    if config != "default":
+        fork_tree([], 1, "default", None, refs_default)
+    ref_default = {r["history"][-1]: (r.get("raised"), r.get("digest")) for r in refs_default if "harness_error" not in r}
     # the exploring process itself becomes the configured initial state (it is a one-shard worker)
     Gl.apply_config(config)
     out = []
@@ -252,6 +258,10 @@ def run_history_shard(res: Result, shard, tier):
             res.count("events_that_raised")
         registered = "register_awkward()" in hist
         abstract.add((config, registered))
+        if (rec["violation"] is None and len(hist) == 1 and hist[-1] in ref_default and not hist[-1].startswith("repr") and hist[-1] not in Gl.REGISTRY
+                and (rec.get("raised"), rec.get("digest")) != ref_default[hist[-1]]):
+            rec["violation"] = ("configuration_dependent_result", f"{hist[-1]} under the prior configuration {config!r}: raised {rec.get('raised')} / digest {rec.get('digest')}, "
+                                f"under the default configuration: raised {ref_default[hist[-1]][0]} / digest {ref_default[hist[-1]][1]}")
         if rec["violation"] is None and hist[-1] in ref and (rec.get("raised"), rec.get("digest")) != ref[hist[-1]]:
             rec["violation"] = ("history_dependent_result", f"{hist[-1]} gives a different result (or raises differently) after {hist[:-1]} than as the first call of the process: "
                                 f"raised {rec.get('raised')} / digest {rec.get('digest')} vs raised {ref[hist[-1]][0]} / digest {ref[hist[-1]][1]}")
@@ -807,6 +817,10 @@ def replay(case):
         for rec in recs:
             hist = rec["history"]
             r0 = ref[hist[-1]]
+            if rec["violation"] is None and len(hist) == 1 and case["config"] != "default" and not hist[-1].startswith("repr") and hist[-1] not in Gl.REGISTRY:
+                rd = _in_child(lambda name=hist[-1]: run_event(name, [], "default"))
+                if (rec.get("raised"), rec.get("digest")) != (rd.get("raised"), rd.get("digest")):
+                    rec["violation"] = ("configuration_dependent_result", f"{hist[-1]} returns or raises differently under the prior configuration {case['config']!r} than under the default one")
             if rec["violation"] is None and (rec.get("raised"), rec.get("digest")) != (r0.get("raised"), r0.get("digest")):
                 rec["violation"] = ("history_dependent_result", f"{hist[-1]} gives a different result after {hist[:-1]} than as the first call of the process")
             if rec["violation"]:
